@@ -155,7 +155,9 @@ SEARCH["dp_key"] = dict(theorems=["bridge_dp_key"], vars=_DQ, lets=["let d : C20
     gen="(let r := Gen.dp_key d.N d.minB a b; ((0 : Int), r.1, (0 : Int), r.2))", model="d.storeKey a b")
 SEARCH["dp_is_in_data"] = dict(theorems=["bridge_dp_is_in_data"], vars=_DQ, lets=["let d : C20.DPDims := ⟨N, h⟩"], real=_DQR,
     gen="Gen.dp_is_in_data d.N d.minB d.maxB a b", model="d.isInData a b")
-ML_KERNELS = ["fan_key", "fan_is_in_data", "fan_min_rb", "fan_ctor_rb_range", "fan_ctor_b_range", "geo_key", "geo_ctor_b_range", "geo_ctor_rb_range",
+for _n in ("fan_key", "geo_key", "dp_key"):
+    SEARCH[_n + "_nc"] = dict(SEARCH[_n], theorems=["bridge_%s_nc" % _n], gen=SEARCH[_n]["gen"].replace("Gen.%s " % _n, "Gen.%s_nc " % _n))
+ML_KERNELS = ["fan_key_nc", "geo_key_nc", "dp_key_nc", "fan_key", "fan_is_in_data", "fan_min_rb", "fan_ctor_rb_range", "fan_ctor_b_range", "geo_key", "geo_ctor_b_range", "geo_ctor_rb_range",
               "dp_key", "dp_is_in_data"]
 SO_KERNELS = [k for k in SEARCH if k.startswith("so_")] + ["cache_key"] + ["find_sym_op_bin0", "find_sym_op_general_bin"]
 GEN_DIR = ("StirVerif", "Gen")
